@@ -24,6 +24,7 @@ sys.path.insert(0, os.path.join(vlib.VERIF, "tools", "translate"))
 THEOREMS = ["C20_keywords_lex", "C20_keywords_start", "C20_offered_lexes_outside_known",
             "C20_lexed_offered_outside_known", "C20_lexer_table_offered_outside_known",
             "C20_classes", "C20_classes_trigger", "C20_class_placeholders", "C20_class_item"]
+SM_THEOREMS = ["C20_sm_classes_exact", "C20_sm_completion", "C20_sm_placeholders"]
 KNOWN_THEOREMS = ["C20_offered_lexes_refuted", "C20_lexed_offered_refuted",
                   "C20_known_offered_not_lexed_real", "C20_known_lexed_not_offered_real"]
 TRANSLATORS = ["t_tokens", "t_lextables", "t_grammar", "t_ast", "t_completion"]
@@ -113,6 +114,12 @@ def run(ctx):
     bindir = vlib.build_harness(False, bins=["idedump", "lexdump", "parsedump", "compsession"])
     fails = vlib.proof_step(ctx, "TG.Props.C20", THEOREMS, ["props/C20.vo"], TRUSTED, translators=TRANSLATORS)
     fails = G.own_failures(fails, ["props/C20.vo"])
+    rsm = vlib.prove("TG.Props.C20SM", SM_THEOREMS, ["props/C20SM.vo"])
+    fails += G.own_failures(rsm["failures"], ["props/C20SM.vo"])
+    ctx.cov["obligations"] = ctx.cov.get("obligations", 0) + rsm["obligations"]
+    ctx.cov["discharged"] = ctx.cov.get("discharged", 0) + rsm["discharged"]
+    ctx.cov["theorems"] = list(ctx.cov.get("theorems", [])) + SM_THEOREMS
+    ctx.cov.setdefault("axioms_per_theorem", {}).update(rsm["assumptions"])
     rk = vlib.prove("TG.Props.C20Known", KNOWN_THEOREMS, ["props/C20Known.vo"])
     known_fails = G.own_failures(rk["failures"], ["props/C20Known.vo"])
     ctx.cov["known_finding_theorems"] = {"module": "TG.Props.C20Known", "theorems": KNOWN_THEOREMS,
@@ -313,6 +320,7 @@ def run(ctx):
     model_lines, model_keys = [], []
     ctx_hist = {}
     parent_positions = 0
+    pc_positions = {}
     class_viol = None
     disp_viol = None
     for wi, (ws, r, meta) in enumerate(zip(wss, res, metas)):
@@ -345,6 +353,8 @@ def run(ctx):
                 if comp:
                     nontrivial.add((wi, p, o))
                 # ---- class oracle: parent-class position = the token left of the cursor is the name of a ClassRef
+                if tk and tk[0] == "Id" and tk[3][:2] == ["Identifier", "ClassRef"]:
+                    pc_positions.setdefault((wi, p), []).append(o)
                 if table is not None and tk and tk[0] == "Id" and tk[3][:2] == ["Identifier", "ClassRef"]:
                     parent_positions += 1
                     got = sorted((i[0], i[1], i[2]) for i in (comp or []))
@@ -412,6 +422,60 @@ def run(ctx):
                     ties += 1
                     if disp_viol is None:
                         disp_viol = (wss[wi], p, o, trig, real, model)
+    # ------------------------------------------------------------------ symbol-table tie (C20_sm_*): replay the REAL op log (hook H3) of every
+    # generated workspace in the symbol-map model, run complete_classes / exec of the model on the resulting state and the real tree,
+    # compare with the real completion at every parent-class position
+    sm_compared = sm_ties = sm_ops = 0
+    if exe:
+        try:
+            hb = vlib.build_harness(True, bins=["compsym"])
+            sws, skeys = [], []
+            for wi, ws in enumerate(wss):
+                offs = [[p, o] for (w2, p), os_ in pc_positions.items() if w2 == wi for o in os_]
+                if offs and "panic" not in res[wi]:
+                    sws.append({"files": ws["files"], "root": ws["root"], "offsets": offs})
+                    skeys.append(wi)
+            sres_ = L.run_json(os.path.join(hb, "compsym"), sws) if sws else []
+            lines, lkeys = [], []
+            for wi, ws, r in zip(skeys, sws, sres_):
+                if "panic" in r or r.get("oplog") is None:
+                    fails.append({"kind": "correspondence", "file": "compsym: no op log (hook H3) for a workspace: %s" % str(r)[:200]})
+                    break
+                sm_ops += len(r["oplog"])
+                ops = " || ".join("OP " + " ".join(L.encode_op(l)) for l in r["oplog"])
+                byfile = {}
+                for p, o, items in r["comp"]:
+                    byfile.setdefault(p, []).append((o, items))
+                for p, lst in byfile.items():
+                    text = dict(ws["files"])[p]
+                    tline = treeio.tree_line(tree_of[(wi, p)]["tree"], text.encode(), sk_index)
+                    lines.append("%s || T %s || Q %s" % (ops, tline, " ".join(str(o) for o, _ in lst)))
+                    lkeys.append((wi, p, lst))
+            for (wi, p, lst), out in zip(lkeys, L.run_model(exe, "symcomp", lines)):
+                parts = out.split(" ; ")
+                if out.startswith("ERR") or len(parts) != len(lst) + 1:
+                    sm_ties += 1
+                    fails.append({"kind": "correspondence", "file": "symbol-map model does not replay the real op log: %s" % out[:200]})
+                    break
+                mcls = sorted((L.uncodes(x.split(":")[0]), int(x.split(":")[1])) for x in parts[0].split()[1:])
+                table = metas[wi]["table"]
+                if table is not None and mcls != sorted(table.items()):
+                    sm_ties += 1
+                    fails.append({"kind": "correspondence", "file": "class symbols of the replayed symbol map %s differ from the generator's class table %s" % (mcls, sorted(table.items()))})
+                for (o, real), part in zip(lst, parts[1:]):
+                    sm_compared += 1
+                    model = L.parse_items(part) if not part.startswith("ERR") else "ERR"
+                    if model == "ERR" or (model is None) != (real is None) or (model is not None and sorted(map(tuple, model)) != sorted(map(tuple, real))):
+                        sm_ties += 1
+                        if sm_ties == 1:
+                            fails.append({"kind": "correspondence", "file": "completion over the replayed symbol map differs from Analysis::completion "
+                                          "(file %s offset %d): model %s, real %s" % (p, o, str(model)[:300], str(real)[:300])})
+        except vlib.BuildError as ex:
+            fails.append({"kind": "model-build", "file": "harness bin compsym (hooks on)", "error": str(ex)[-800:]})
+    ctx.cov["symbol_map_positions_compared"] = sm_compared
+    ctx.cov["symbol_map_ops_replayed"] = sm_ops
+    ctx.cov["symbol_map_disagreements"] = sm_ties
+
     # ------------------------------------------------------------------ oracle 5: after a `!` (trigger) every accepted operator is offered,
     # whatever follows the cursor (fixed contexts + every `!` of the generated workspaces)
     bang_ctx = []
